@@ -243,20 +243,12 @@ Definition thisClassObject (c : Z) (k : vkind) : prelude :=
   | r => r
   end.
 
-(* builtin_string.go charAt / charCodeAt:
+(* builtin_string.go charAt / charCodeAt (since 8a02cb3):
      checkObjectCoercible(call.runtime, call.This)
-     ... stringAt(call.This.object().stringValue(), idx)
-   Value.object() is nil unless the value is an object; object.stringValue()
-   is a nil interface unless the object is a String object; either nil is
-   dereferenced by stringAt. *)
-Definition charAt_prelude (k : vkind) : prelude :=
-  match checkObjectCoercible k with
-  | POk => match k with
-           | KObject c => if c =? cString then PObj c else PRaise (Raw BRuntimeStr)
-           | _ => PRaise (Raw BRuntimeStr)
-           end
-  | r => r
-  end.
+     ... stringAt(newStringObject(call.This.string()), idx)
+   the receiver is converted with ToString after the coercibility check; no
+   object payload is looked at any more. *)
+Definition charAt_prelude (k : vkind) : prelude := checkObjectCoercible k.
 
 (* ES5 15.5.4.4: CheckObjectCoercible(this), then ToString(this): total on coercible values *)
 Definition charAt_prelude_spec (k : vkind) : prelude :=
